@@ -44,12 +44,12 @@ WORKER_TIMEOUT = {"quick": 600, "thorough": 3600}
 
 def gen_cases(tier, seed):
     rnd = random.Random(f"C09:{seed}")
-    bound = 10 if tier == "quick" else 13
+    bound = 10 if tier == "quick" else 16
     cases = []
     for grid in itertools.product(range(1, bound + 1), repeat=3):
         cases.append({"kind": "grid", "grid": list(grid), "chunk": rnd.choice([1, 2, 3, 8, 64]),
                       "rem": [rnd.random() for _ in range(3)], "mode": "all"})
-    n_big = 400 if tier == "quick" else 3000
+    n_big = 400 if tier == "quick" else 20000
     for _ in range(n_big):
         grid = []
         for _a in range(3):
@@ -67,7 +67,7 @@ def gen_cases(tier, seed):
                       "rem": [rnd.random() for _ in range(3)], "mode": "sample",
                       "pseed": rnd.randrange(2 ** 32),
                       "npos": 200 if tier == "quick" else 600})
-    hi = 4 if tier == "quick" else 8
+    hi = 4 if tier == "quick" else 10
     triples = list(itertools.product(range(hi + 1), repeat=3))
     for t in [(0, 0, 64), (0, 64, 0), (64, 0, 0), (0, 0, 70), (0, 3, 70), (5, 30, 30),
               (60, 2, 2), (0, 20, 44), (3, 10, 51), (0, 1, 63), (1, 1, 62), (0, 0, 0),
@@ -80,7 +80,7 @@ def gen_cases(tier, seed):
     # own grid and its own configured triple) written through the real accessor, scales
     # interleaved; the shard files that appear must carry the names the specification
     # derives for the configured triple of THEIR scale
-    for _ in range(60 if tier == "quick" else 600):
+    for _ in range(60 if tier == "quick" else 2500):
         scs = []
         chunk = rnd.choice([1, 2, 4])
         for _k in range(rnd.choice([2, 2, 3])):
